@@ -122,6 +122,7 @@ type X struct {
 	polarity  int
 	noFacts   int
 	entryState *State
+	retHook    func(v Val)
 	readPats   map[string]*regexp.Regexp
 	sideConds []sideCond
 }
